@@ -33,6 +33,17 @@ def reqs? : Sexp → Option (List Req)
 def userFn? : Sexp → Option UserFn
   | .list [.atom name, b, r, rl, fr, ns] => do
       pure { name := name, bound := ← strs? b, read := ← strs? r, readLocal := ← strs? rl, free := ← strs? fr, ns := ← strs? ns }
+  | .list [.atom name, b, r, rl, fr, ns, bv, sc, kc] => do
+      pure { name := name, bound := ← strs? b, read := ← strs? r, readLocal := ← strs? rl, free := ← strs? fr, ns := ← strs? ns,
+             blockVarRoots := ← strs? bv, starCalls := ← sc.bool?, kwCalls := ← kc.bool? }
+  | _ => none
+
+def pass? : Sexp → Option (String × List Call)
+  | .list [.atom step, cs] => do pure (step, ← calls? cs)
+  | _ => none
+
+def conversion? : Sexp → Option Conversion
+  | .list [pre, .list ps, post] => do pure { pre := ← calls? pre, passes := ← ps.mapM pass?, post := ← calls? post }
   | _ => none
 
 def run (f : Option String) : String := f.getD "bad-args"
@@ -41,13 +52,14 @@ def dedup (xs : List String) : List String := xs.foldl (fun acc x => if acc.cont
 
 /-- Every (name, class) pair whose class predicate holds, for names the program or the templates mention. -/
 def classPairs (f : UserFn) (roots : List String) : List (String × String) :=
-  let fixed := Gen.Naming.templateFixedNames ++ Gen.Naming.extraLocals
+  let fixed := hardCodedNames
   let names := dedup (f.bound ++ f.free ++ fixed)
   names.foldr (fun x acc =>
     (if clsBoundOnly f roots x then [(x, "bound_only_user_name_equals_generated_root")] else []) ++
     (if clsNestedBound f roots x then [(x, "nested_scope_bound_name_equals_generated_root")] else []) ++
     (if clsLateFree f x then [(x, "free_name_outside_namespace_equals_transpiler_name")] else []) ++
     (if clsFixed f x then [(x, "user_name_equals_hard_coded_template_identifier")] else []) ++
+    (if clsBuiltinShadow f x then [(x, "user_binding_shadows_builtin_referenced_by_generated_code")] else []) ++
     (if clsCollapse f x then [(x, "transformed_function_name_collapses_to_hard_coded_identifier")] else []) ++ acc) []
 
 def handlers : List (String × (List Sexp → String)) := [
@@ -81,10 +93,31 @@ def handlers : List (String × (List Sexp → String)) := [
         .list (.atom "converter" :: (converterNames f reqs).map .atom),
         .list (.atom "transpiler" :: (transpilerNames f reqs).map .atom),
         .list (.atom "classes" :: (classPairs f roots).map (fun p => Sexp.list [.atom p.1, .atom p.2]))]))),
+  ("c11.why", fun a => run do
+      let [fx, rs] := a | none
+      let f ← userFn? fx
+      let reqs ← reqs? rs
+      pure (toString (Sexp.list ((whyOutside f reqs).map fun p => Sexp.list [.atom p.1, .atom p.2])))),
+  ("c11.e2e", fun a => run do
+      let [fx, cx] := a | none
+      let f ← userFn? fx
+      let c ← conversion? cx
+      let pre := runCalls ⟨f.ns, []⟩ c.pre
+      let mid := runPipeline pre.2 c.passes
+      let post := runCalls mid.2 c.post
+      let b (p : Bool) := Sexp.ofBool p
+      pure (toString (Sexp.list [
+        .list [.atom "well_formed", b (wellFormed f c)],
+        .list [.atom "no_clash_class", b (noClashClass f)],
+        .list (.atom "pre" :: pre.1.map .atom),
+        .list (.atom "passes" :: mid.1.map (fun p => Sexp.list (.atom p.1 :: p.2.map .atom))),
+        .list (.atom "post" :: post.1.map .atom),
+        .list (.atom "all_introduced" :: (allIntroduced f c).map .atom)]))),
   ("c11.tables", fun _ => toString (Sexp.list [
       .list (.atom "converterRoots" :: Gen.Naming.converterRoots.map .atom),
       .list (.atom "transpilerRoots" :: Gen.Naming.transpilerRoots.map .atom),
-      .list (.atom "fixed" :: (Gen.Naming.templateFixedNames ++ Gen.Naming.extraLocals).map .atom),
+      .list (.atom "fixed" :: hardCodedNames.map .atom),
+      .list (.atom "introSites" :: [Sexp.ofNat Gen.Naming.introSites.length]),
       .list [.atom "prefix", .atom Gen.Naming.transformedNamePrefix],
       .list [.atom "lam", .atom Gen.Naming.lambdaName]]))
 ]
